@@ -29,7 +29,9 @@ CLAIM = {
             "holder_shutdown_script - value and presence - from the request's local_shutdown_script only (and the "
             "counterparty's from remote_shutdown_script only); (R7.6) the funding outpoint the closing transaction spends "
             "is fixed once set: ChannelSetup.funding_outpoint is written, outside construction, only by "
-            "MultiSigner::additional_setup and only while the stored outpoint is still null. channel_closed + persist: C02 R2.2. Does "
+            "MultiSigner::additional_setup and only while the stored outpoint is still null. (R7.7) `no HTLC pending` is read from the recorded commitment "
+            "contents, which are the whole supplied content: nothing drops an HTLC between the request and the recorded "
+            "CommitmentInfo2 (same obligations as the first part of C04 R4.3). channel_closed + persist: C02 R2.2. Does "
             "not decide the numeric epsilon/fee arithmetic at extremes.",
     "note": "non-permissive policy; Wallet::can_spend / allowlist_contains semantics by name (C08 R8.4 checks can_spend)",
     "technique": "static analysis: must-pass-through on boolean/Result edges + guard scenarios + provenance (argument roles)",
@@ -45,6 +47,7 @@ def run(ctx):
     r74(ctx)
     r75(ctx)
     r76(ctx)
+    r_content(ctx)
 
 
 def r71(ctx):
@@ -387,3 +390,13 @@ def r76(ctx):
                f"`{on}` can overwrite a funding outpoint that is already set (line {obj.line}): the channel is re-pointed and "
                "a later mutual close is signed for a transaction spending another outpoint",
                where=f"{b.file}:{obj.line}", sample="write dominated by funding_outpoint.is_null() == true")
+
+
+def r_content(ctx):
+    """validate_mutual_close_tx reads `no HTLC is pending` from the recorded commitment infos; an HTLC dropped while they
+    are built makes a channel with a pending HTLC look closable"""
+    from rules import C04 as _c04
+    ctx.rule("R7.7", "the commitment content that is validated and recorded is the content the caller supplied: the info "
+                     "builders forward balances, both HTLC lists and the feerate unmodified and CommitmentInfo2::new only sorts "
+                     "(same obligations as the first part of C04 R4.3)")
+    _c04.content_passthrough(ctx, rid="R7.7")
